@@ -1,5 +1,5 @@
 (* Invariants of the close / observers transition system (Model/Lifecycle.v). *)
-From Coq Require Import ZifyBool Lia.
+From Coq Require Import Lia.
 From FMP Require Import Base.Bytes Base.Lts Model.Events Model.Skeleton Model.Props Model.Lifecycle.
 Open Scope Z_scope.
 
@@ -12,85 +12,99 @@ Definition old_lc_skeleton : skeleton :=
        true true true true
        true false.
 
-(* monitor state reached on the trace, tied to the LTS state *)
-Definition LcInv (sk : skeleton) (st : lcstate) (m : option Z) : Prop :=
-  sk_stop_err_in_once sk = true /\
-  (lc_stop_closed st = false -> m = None) /\
-  (lc_stop_closed st = true -> lc_stop_err st <> 0 /\ (m = None \/ m = Some (lc_stop_err st))) /\
-  (* the error is written only by the winner of the once, before the stop channel closes, and never again *)
+(* ---------- state invariant for a skeleton that stores the stop error inside the once ---------- *)
+
+(* the error is written only by the winner of the once, before the stop channel closes, and never again *)
+Definition LcInv (st : lcstate) : Prop :=
   (match lc_once st with
    | OnceFree => lc_stop_closed st = false /\ lc_stop_err st = 0
    | OnceAssign e => lc_stop_closed st = false /\ e <> 0 /\ lc_stop_err st = 0
    | OnceClose e => lc_stop_closed st = false /\ e <> 0 /\ lc_stop_err st = e
-   | OnceRest | OnceDone => lc_stop_closed st = true
+   | OnceRest | OnceDone => lc_stop_closed st = true /\ lc_stop_err st <> 0
    end) /\
   (match lc_loop st with LpHasErr e => e <> 0 | _ => True end).
 
-Lemma lc_step_inv : forall sk st l st' m,
-    LcInv sk st m -> lcstep sk st l = Some st' ->
-    exists m', run lifecycle_step m (rev (firstn (length (lc_hist st') - length (lc_hist st)) (lc_hist st'))) = Some m'
-               /\ LcInv sk st' m' /\ exists evs, lc_hist st' = evs ++ lc_hist st.
+(* monitor state reached on the trace, tied to the LTS state *)
+Definition MonRel (st : lcstate) (m : option Z) : Prop :=
+  if lc_stop_closed st then m = None \/ m = Some (lc_stop_err st) else m = None.
+
+Ltac lc_cases E :=
+  repeat match type of E with
+         | (match ?x with _ => _ end) = _ => destruct x eqn:?; try discriminate E
+         end.
+
+Lemma lc_init_inv : LcInv lc_init.
+Proof. unfold LcInv; cbn. auto. Qed.
+
+Lemma lc_step_inv : forall sk st l st',
+    sk_stop_err_in_once sk = true -> LcInv st -> lcstep sk st l = Some st' -> LcInv st'.
 Proof.
-  intros sk st l st' m (Hsk & Hopen & Hclosed & Honce & Hloop) Hstep.
-  destruct l; cbn [lcstep] in Hstep.
-  - destruct (lc_loop st); inversion Hstep; subst; cbn.
-    exists m. rewrite PeanoNat.Nat.sub_diag. cbn. split; [reflexivity|]. split; [repeat split; auto | exists []; reflexivity].
-  - destruct (lc_loop st); try discriminate. destruct (Z.eqb_spec e 0); [discriminate|]. inversion Hstep; subst; cbn.
-    exists m. rewrite PeanoNat.Nat.sub_diag. cbn. split; [reflexivity|]. split; [repeat split; auto | exists []; reflexivity].
-  - destruct (lc_loop st); try discriminate. rewrite Hsk in Hstep. discriminate.
-  - destruct (lc_loop st) eqn:El; try discriminate. destruct (lc_once st) eqn:Eo; try discriminate; inversion Hstep; subst; cbn.
-    + exists m. rewrite PeanoNat.Nat.sub_diag. cbn. split; [reflexivity|].
-      split; [|exists []; reflexivity]. destruct Honce as [H1 H2]. repeat split; auto.
-    + exists m. rewrite PeanoNat.Nat.sub_diag. cbn. split; [reflexivity|].
-      split; [|exists []; reflexivity]. repeat split; auto.
-  - destruct (lc_once st) eqn:Eo; try discriminate; inversion Hstep; subst; cbn.
-    exists m. rewrite PeanoNat.Nat.sub_diag. cbn. split; [reflexivity|].
-    split; [|exists []; reflexivity]. destruct Honce as [H1 H2]. repeat split; auto. lia.
-  - destruct (lc_once st) eqn:Eo; try discriminate; inversion Hstep; subst; cbn.
-    exists m. rewrite PeanoNat.Nat.sub_diag. cbn. split; [reflexivity|].
-    split; [|exists []; reflexivity]. destruct Honce as (H1 & H2 & H3). rewrite Hsk.
-    repeat split; auto. intro Hc. cbn in Hc. congruence.
-  - destruct (lc_once st) eqn:Eo; try discriminate; inversion Hstep; subst; cbn.
-    exists m. rewrite PeanoNat.Nat.sub_diag. cbn. split; [reflexivity|].
-    split; [|exists []; reflexivity]. destruct Honce as (H1 & H2 & H3).
-    repeat split; auto; cbn; try congruence.
-    left. apply Hopen. exact H1.
-  - destruct (lc_once st) eqn:Eo; try discriminate; inversion Hstep; subst; cbn.
-    exists m. rewrite PeanoNat.Nat.sub_diag. cbn. split; [reflexivity|].
-    split; [|exists []; reflexivity]. repeat split; auto. destruct (lc_loop st); auto.
-  - inversion Hstep; subst; cbn.
-    replace (S (length (lc_hist st)) - length (lc_hist st))%nat with 1%nat by lia. cbn.
-    destruct (lc_stop_closed st) eqn:Ec; cbn.
-    + destruct (Hclosed eq_refl) as [Hne [Hm|Hm]]; subst m.
-      * destruct (Z.eqb_spec (lc_stop_err st) 0); [contradiction|]. cbn.
-        eexists. split; [reflexivity|]. split; [|eexists [_]; reflexivity].
-        repeat split; auto; cbn; try congruence. intros _. split; auto.
-      * destruct (Z.eqb_spec (lc_stop_err st) 0); [contradiction|]. cbn. rewrite Z.eqb_refl.
-        eexists. split; [reflexivity|]. split; [|eexists [_]; reflexivity].
-        repeat split; auto; cbn; try congruence. intros _. split; auto.
-    + rewrite (Hopen eq_refl). cbn.
-      eexists. split; [reflexivity|]. split; [|eexists [_]; reflexivity].
-      repeat split; auto; cbn; congruence.
+  intros sk st l st' Hsk [Honce Hloop] Hstep.
+  destruct l; cbn [lcstep] in Hstep; try rewrite Hsk in Hstep; lc_cases Hstep;
+    inversion Hstep; subst; clear Hstep; unfold LcInv; cbn [lc_once lc_loop lc_stop_closed lc_stop_err];
+    repeat match goal with
+           | H : lc_once _ = _ |- _ => rewrite H in *; clear H
+           | H : lc_loop _ = _ |- _ => rewrite H in *; clear H
+           end;
+    try (apply Z.eqb_neq in Heqb);
+    intuition (try congruence; try lia).
+  all: destruct (lc_loop st); auto.
 Qed.
 
-Lemma firstn_app_exact : forall A (a b : list A), firstn (length (a ++ b) - length b) (a ++ b) = a.
+Lemma lc_reach_inv : forall sk ls st st',
+    sk_stop_err_in_once sk = true -> LcInv st -> run (lcstep sk) st ls = Some st' -> LcInv st'.
 Proof.
-  intros A a b. rewrite app_length. replace (length a + length b - length b)%nat with (length a) by lia.
-  rewrite firstn_app, PeanoNat.Nat.sub_diag, firstn_all. cbn. apply app_nil_r.
+  intros sk ls st st' Hsk HI Hr.
+  eapply (invariant_run _ _ (lcstep sk) LcInv); [|exact HI|exact Hr].
+  intros s l s' Hs Hst. eapply lc_step_inv; eauto.
 Qed.
 
-Lemma lc_run_inv : forall sk ls st st' m,
-    LcInv sk st m -> run lifecycle_step None (lc_trace st) = Some m -> run (lcstep sk) st ls = Some st' ->
-    exists m', run lifecycle_step None (lc_trace st') = Some m' /\ LcInv sk st' m'.
+(* one step of the LTS extends the accepted monitor run *)
+Lemma lc_step_mon : forall sk st l st' m,
+    sk_stop_err_in_once sk = true -> LcInv st -> MonRel st m ->
+    run lifecycle_step None (lc_trace st) = Some m ->
+    lcstep sk st l = Some st' ->
+    exists m', run lifecycle_step None (lc_trace st') = Some m' /\ MonRel st' m'.
 Proof.
-  intros sk. induction ls as [|l ls IH]; intros st st' m HI Hm Hr; cbn in Hr.
+  intros sk st l st' m Hsk [Honce Hloop] Hmon Hrun Hstep.
+  unfold MonRel in *.
+  destruct l; cbn [lcstep] in Hstep; try rewrite Hsk in Hstep; lc_cases Hstep;
+    inversion Hstep; subst; clear Hstep; unfold lc_trace in *; cbn [lc_hist lc_stop_closed lc_stop_err];
+    repeat match goal with
+           | H : lc_once _ = _ |- _ => rewrite H in *; clear H
+           | H : lc_loop _ = _ |- _ => rewrite H in *; clear H
+           end.
+  (* all labels but LcObserve leave the history alone *)
+  all: try (exists m; split; [exact Hrun|]; try exact Hmon;
+            destruct (lc_stop_closed st) eqn:Ec; intuition congruence).
+  - (* LcObserve *)
+    cbn [rev]. rewrite run_app, Hrun. cbn [run lifecycle_step].
+    destruct (lc_stop_closed st) eqn:Ec; cbn [negb orb andb].
+    + assert (Hne : lc_stop_err st <> 0).
+      { destruct (lc_once st); destruct Honce as (H1 & H2); try congruence.
+        all: destruct H2; congruence. }
+      apply Z.eqb_neq in Hne. rewrite Hne.
+      destruct Hmon as [Hm|Hm]; subst m.
+      * eexists. split; [reflexivity|]. right. reflexivity.
+      * rewrite Z.eqb_refl. eexists. split; [reflexivity|]. right. reflexivity.
+    + subst m. cbn. exists None. split; reflexivity.
+Qed.
+
+Lemma lc_run_mon : forall sk ls st st' m,
+    sk_stop_err_in_once sk = true -> LcInv st -> MonRel st m ->
+    run lifecycle_step None (lc_trace st) = Some m ->
+    run (lcstep sk) st ls = Some st' ->
+    exists m', run lifecycle_step None (lc_trace st') = Some m' /\ MonRel st' m'.
+Proof.
+  intros sk. induction ls as [|l ls IH]; intros st st' m Hsk HI HM Hm Hr; cbn in Hr.
   - inversion Hr; subst. eauto.
   - destruct (lcstep sk st l) as [s1|] eqn:E; [|discriminate].
-    destruct (lc_step_inv sk st l s1 m HI E) as (m1 & Hrun & HI1 & evs & Hh).
-    rewrite Hh in Hrun. rewrite firstn_app_exact in Hrun.
-    eapply IH; [exact HI1 | | exact Hr].
-    unfold lc_trace. rewrite Hh, rev_app_distr, run_app. unfold lc_trace in Hm. rewrite Hm. exact Hrun.
+    destruct (lc_step_mon sk st l s1 m Hsk HI HM Hm E) as (m1 & Hrun & HM1).
+    eapply IH; [exact Hsk | eapply lc_step_inv; eauto | exact HM1 | exact Hrun | exact Hr].
 Qed.
+
+Lemma expected_in_once : sk_stop_err_in_once expected_skeleton = true.
+Proof. reflexivity. Qed.
 
 (* C07: for the skeleton of the current source, under every schedule of closers, the receive loop and observers, the
    observation trace is accepted by the lifecycle monitor *)
@@ -98,29 +112,80 @@ Theorem lifecycle_observers_agree : forall ls st,
     run (lcstep expected_skeleton) lc_init ls = Some st -> c07_lifecycle (lc_trace st) = true.
 Proof.
   intros ls st Hr. unfold c07_lifecycle, accepts.
-  destruct (lc_run_inv expected_skeleton ls lc_init st None) as (m' & Hm & _); [| reflexivity | exact Hr |].
-  - repeat split; cbn; auto; congruence.
-  - rewrite Hm. reflexivity.
+  destruct (lc_run_mon expected_skeleton ls lc_init st None expected_in_once lc_init_inv) as (m' & Hm & _);
+    [reflexivity | reflexivity | exact Hr |].
+  rewrite Hm. reflexivity.
 Qed.
 
-(* the stop channel closes at most once and is never reopened; the error is fixed from then on *)
+(* the stop channel closes at most once and is never reopened (any skeleton) *)
 Theorem lifecycle_stop_irreversible : forall sk ls st st',
     run (lcstep sk) st ls = Some st' -> lc_stop_closed st = true -> lc_stop_closed st' = true.
 Proof.
   intros sk. induction ls as [|l ls IH]; intros st st' Hr Hc; cbn in Hr.
   - inversion Hr; subst; exact Hc.
   - destruct (lcstep sk st l) as [s1|] eqn:E; [|discriminate]. eapply IH; [exact Hr|].
-    destruct l; cbn [lcstep] in E;
-      repeat match type of E with
-             | context [match ?x with _ => _ end] => destruct x eqn:?; try discriminate
-             | context [if ?x then _ else _] => destruct x eqn:?; try discriminate
-             end; inversion E; subst; cbn; auto.
+    destruct l; cbn [lcstep] in E; lc_cases E; inversion E; subst; cbn; auto.
+Qed.
+
+(* once the stop channel is closed the error is non-nil and no step changes it *)
+Lemma lc_step_err_fixed : forall sk st l st',
+    sk_stop_err_in_once sk = true -> LcInv st -> lc_stop_closed st = true ->
+    lcstep sk st l = Some st' -> lc_stop_err st' = lc_stop_err st.
+Proof.
+  intros sk st l st' Hsk [Honce _] Hc Hstep.
+  destruct l; cbn [lcstep] in Hstep; try rewrite Hsk in Hstep; lc_cases Hstep;
+    inversion Hstep; subst; clear Hstep; cbn [lc_stop_err]; try reflexivity.
+  (* LcOnceAssign: impossible when closed *)
+  destruct Honce as (H1 & _). congruence.
+Qed.
+
+Lemma lc_closed_err_nonzero : forall st, LcInv st -> lc_stop_closed st = true -> lc_stop_err st <> 0.
+Proof.
+  intros st [Honce _] Hc. destruct (lc_once st); destruct Honce as (H1 & H2); try congruence.
+  all: destruct H2; congruence.
+Qed.
+
+Theorem lifecycle_err_fixed : forall ls ls' st st',
+    run (lcstep expected_skeleton) lc_init ls = Some st -> lc_stop_closed st = true ->
+    run (lcstep expected_skeleton) st ls' = Some st' -> lc_stop_err st' = lc_stop_err st /\ lc_stop_err st <> 0%Z.
+Proof.
+  intros ls ls' st st' Hr Hc Hr'.
+  assert (HI : LcInv st) by (eapply lc_reach_inv; [exact expected_in_once | exact lc_init_inv | exact Hr]).
+  split; [|apply lc_closed_err_nonzero; assumption].
+  clear Hr. revert st st' HI Hc Hr'.
+  induction ls' as [|l ls' IH]; intros st st' HI Hc Hr'; cbn in Hr'.
+  - inversion Hr'; subst; reflexivity.
+  - destruct (lcstep expected_skeleton st l) as [s1|] eqn:E; [|discriminate].
+    assert (HI1 : LcInv s1) by (eapply lc_step_inv; [exact expected_in_once | exact HI | exact E]).
+    assert (Hc1 : lc_stop_closed s1 = true)
+      by (apply (lifecycle_stop_irreversible expected_skeleton [l] st s1); [cbn; rewrite E; reflexivity | exact Hc]).
+    rewrite (IH s1 st' HI1 Hc1 Hr').
+    eapply lc_step_err_fixed; [exact expected_in_once | exact HI | exact Hc | exact E].
 Qed.
 
 (* the old mechanism: a local Close, then an observer: Done is closed and err() is nil *)
 Theorem lifecycle_local_close_err_nil_refuted : exists ls st,
     run (lcstep old_lc_skeleton) lc_init ls = Some st /\ c07_lifecycle (lc_trace st) = false.
 Proof.
-  exists [LcLocalEnterOnce; LcOnceAssign; LcOnceCloseStop; LcObserve]. eexists. split; vm_compute; reflexivity.
+  exists [LcLocalEnterOnce; LcOnceAssign; LcOnceCloseStop; LcObserve]. eexists.
+  split; [vm_compute; reflexivity|]. vm_compute. reflexivity.
 Qed.
 
+(* the old mechanism: a local Close wins the once while the receive loop holds a fatal error; the loop stores its
+   error outside the once after the stop channel closed: two observers that both see Done closed read different
+   errors (nil, then the loop's error) *)
+Theorem lifecycle_err_changes_refuted : exists ls st,
+    run (lcstep old_lc_skeleton) lc_init ls = Some st /\ c07_lifecycle (lc_trace st) = false /\
+    exists e1 e2, e1 <> e2 /\ In (AObserve true false e1) (lc_trace st) /\ In (AObserve true false e2) (lc_trace st).
+Proof.
+  exists [LcStartLoop; LcLoopErr 2; LcLocalEnterOnce; LcOnceAssign; LcOnceCloseStop; LcObserve;
+          LcLoopAssignOutside; LcObserve].
+  eexists. split; [vm_compute; reflexivity|]. split; [vm_compute; reflexivity|].
+  exists 0, 2. split; [discriminate|]. cbn. split; [left; reflexivity | right; left; reflexivity].
+Qed.
+
+Print Assumptions lifecycle_observers_agree.
+Print Assumptions lifecycle_stop_irreversible.
+Print Assumptions lifecycle_err_fixed.
+Print Assumptions lifecycle_local_close_err_nil_refuted.
+Print Assumptions lifecycle_err_changes_refuted.
